@@ -980,6 +980,13 @@ def initShapes (ms cs : List Nat) : Option (List Nat × List Nat) :=
         top = body[1]
         if not (isinstance(top, ast.If) and U(top.test) == "base_samples is None" and U(body[2]) == "return res" and len(body) == 3):
             bad(fn, "rsample shape")
+        # the `base_samples is None` branch is delegated to linear_operator's sampler: only this exact shape is in vocabulary
+        # (the draw itself is tied by the `fsample` correspondence: seeded rsample() == mean + R eps for the recovered draw)
+        if len(top.body) != 3:
+            bad(top, "no-base-samples branch of rsample must be: num_samples, zero_mean_mvn_samples + loc, view")
+        expect(top.body[0], "num_samples = sample_shape.numel() or 1", "number of samples")
+        expect(top.body[1], "res = covar.zero_mean_mvn_samples(num_samples) + self.loc.unsqueeze(0)", "sampler delegation")
+        expect(top.body[2], "res = res.view(sample_shape + self.loc.shape)", "view of the drawn samples")
         st = top.orelse
         it = iter(st)
         expect(next(it), "covar_root = covar.root_decomposition().root", "root")
